@@ -3,6 +3,7 @@ import RsModel.Lemmas.Replay
 import RsModel.Lemmas.PosTree
 import RsModel.Lemmas.ModeTree2
 import RsModel.Lemmas.ModeMap
+import RsModel.Lemmas.ModeCold
 /-!
 # C03 — `map()` attributes every position exactly as the chunk stream does
 (T1 of DESIGN: the codec step of the chain.)
@@ -109,5 +110,22 @@ example : (Src.concat (.cons (.orig [120, 59, 10, 121] [102]) (.cons (.rawStr [5
     simp only [Option.some.injEq] at ho
     subst ho
     exact ⟨by decide, fun k hk => by cases hk⟩
+
+
+/-! ## … including CachedSource nodes, on cold caches -/
+
+/-- **C03 with CachedSource nodes** (columns = true): the same statement for trees that also contain CachedSource nodes
+(`ModeHypC`), for a call that finds the caches of the tree's CachedSource nodes cold (`Cold`; distinct nodes own distinct caches,
+`Nodup`) — whatever else the two stores hold: `get_map` resolves every position of `source()` to the original location of the
+chunk covering it in the stream an outside caller obtains (itself on cold caches).  Warm caches are C10's business (and K5). -/
+theorem c03_tree_cached (s : Src) (h : s.ModeHypC) (hn : s.ids.Nodup) (σF σN : Store) (hcF : Cold σF s.ids) (hcN : Cold σN s.ids) (final : Bool)
+    (hsmall : ∀ m ∈ chunkMs (s.stream ⟨true, true⟩ σF).1.evs, m.small) :
+    (∀ sm, (getMap s ⟨true, final⟩ σF).1 = some sm → attrFrom (decode sm.mappings) startPos s.src = attrOf (s.stream ⟨true, false⟩ σN).1.evs)
+    ∧ ((getMap s ⟨true, final⟩ σF).1 = none → attrOf (s.stream ⟨true, false⟩ σN).1.evs = List.replicate s.src.length none) :=
+  getMap_attrC s h hn σF σN hcF hcN final hsmall
+
+/-- on cold caches the stream of a tree does not depend on what else the store holds -/
+theorem c03_cold_store_irrelevant (s : Src) (o : Opts) (σ σ' : Store) (hn : s.ids.Nodup) (hc : Cold σ s.ids) (hc' : Cold σ' s.ids) :
+    (s.stream o σ).1 = (s.stream o σ').1 := Src.stream_cold s o σ σ' hn hc hc'
 
 end Rs
